@@ -382,7 +382,7 @@ func (g *G) OperandPath(filterDepth int, group bool) *Path {
 	return p
 }
 
-var numLits = []string{"0", "1", "2", "-1", "1.5", "10", "1e2", "2.0", "+1", "-0.5", "100", "3"}
+var numLits = []string{"0", "1", "2", "-1", "1.5", "10", "1e2", "2.0", "+1", "-0.5", "100", "3", "9007199254740993", "-0"}
 var strLits = []string{"a", "b", "", "1", "a b", "é", "it's", "say \"hi\"", "x\\y", "true", "null", "ab", "it’s"}
 var regexes = []string{"a", "^a", "b$", "[ab]+", "(?i)A", "a|b", ".", "a/b", `\d+`, "^$", "é", `\\`, "^(a b|1)$", "a b", "ab", "^", "$", "a $", "^a$", "^ab$", `\Aa\z`, "^a", "b$"}
 
